@@ -1,6 +1,7 @@
 package fakesock
 
 import (
+	"fmt"
 	"os"
 	"verifharness/pkg/vh"
 )
@@ -349,7 +350,7 @@ func GenCase(r *vh.Rng, flavor string) Case {
 				}
 				q := r.Intn(FirstBadSubQuery)
 				if r.Chance(12) {
-					q = FirstBadSubQuery + r.Intn(len(SubQueries)-FirstBadSubQuery)
+					q = FirstBadSubQuery + r.Intn(FirstCacheSubQuery-FirstBadSubQuery)
 				}
 				c.Ops = append(c.Ops, Op{Op: "subscribe", ID: id, Q: q, Sync: genSync(r)})
 				if q < FirstBadSubQuery {
@@ -509,6 +510,92 @@ func Variant(r *vh.Rng, seed Case) Case {
 		if o := &c.Ops[k]; o.Op == "subscribe" && o.Vars == nil {
 			o.Vars = genVars(r, o.Q)
 		}
+	}
+	return c
+}
+
+// GenCacheCase: histories around memoised sub-results - a subscription whose query selects the Expensive field
+// `detail` of stable node objects (directly, through named fragments spread in several places, under several
+// aliases), while nodes leave the keyed list and come back, their details change while they are listed and while
+// they are not, and other fields change.
+func GenCacheCase(r *vh.Rng, flavor string) Case {
+	c := Case{Max: 3, Origin: "generated-cache"}
+	if r.Chance(25) {
+		c.DelayMs = []int{8, 15}[r.Intn(2)]
+	}
+	c.Middlewares = r.Intn(3)
+	ids := []int64{1, 2, 3}
+	mk := func(present []int64) []Item {
+		var out []Item
+		for _, id := range present {
+			out = append(out, Item{Id: id, Name: fmt.Sprintf("n%d", id), N: id})
+		}
+		return out
+	}
+	present := []int64{1, 2}
+	if r.Chance(50) {
+		present = []int64{2, 1, 3}
+	}
+	c.Ops = append(c.Ops, Op{Op: "set", Field: "items", Items: mk(present)})
+	q := FirstCacheSubQuery + r.Intn(len(SubQueries)-FirstCacheSubQuery)
+	sid := IDPool[r.Intn(3)]
+	c.Ops = append(c.Ops, Op{Op: "subscribe", ID: sid, Q: q, Sync: "settle"})
+	val := int64(100)
+	setDetail := func(id int64) {
+		val++
+		c.Ops = append(c.Ops, Op{Op: "set", Field: DetailField(id), Int: val, Sync: "settle"})
+	}
+	remove := func(id int64) bool {
+		for i, x := range present {
+			if x == id {
+				present = append(append([]int64{}, present[:i]...), present[i+1:]...)
+				return true
+			}
+		}
+		return false
+	}
+	if r.Chance(60) {
+		// a node leaves the list, its detail changes meanwhile, it comes back
+		x := present[r.Intn(len(present))]
+		remove(x)
+		c.Ops = append(c.Ops, Op{Op: "set", Field: "items", Items: mk(present), Sync: "settle"})
+		setDetail(x)
+		if r.Chance(50) {
+			present = append(present, x)
+		} else {
+			present = append([]int64{x}, present...)
+		}
+		c.Ops = append(c.Ops, Op{Op: "set", Field: "items", Items: mk(present), Sync: "settle"})
+	}
+	n := 3 + r.Intn(6)
+	for i := 0; i < n; i++ {
+		switch j := r.Intn(100); {
+		case j < 35:
+			setDetail(ids[r.Intn(len(ids))])
+		case j < 55:
+			// leave or join
+			x := ids[r.Intn(len(ids))]
+			if !remove(x) {
+				present = append(present, x)
+			}
+			c.Ops = append(c.Ops, Op{Op: "set", Field: "items", Items: mk(present), Sync: "settle"})
+		case j < 65 && len(present) > 1:
+			// reorder
+			present[0], present[len(present)-1] = present[len(present)-1], present[0]
+			c.Ops = append(c.Ops, Op{Op: "set", Field: "items", Items: mk(present), Sync: "settle"})
+		case j < 80:
+			c.Ops = append(c.Ops, Op{Op: "set", Field: "a", Int: int64(r.Intn(50)), Sync: "settle"})
+		case j < 88:
+			c.Ops = append(c.Ops, Op{Op: "set", Field: "s", Str: r.Pick([]string{"p", "q", "r"}), Sync: "settle"})
+		case j < 94:
+			// a second subscription on the same data
+			c.Ops = append(c.Ops, Op{Op: "subscribe", ID: IDPool[3+r.Intn(len(IDPool)-3)], Q: FirstCacheSubQuery + r.Intn(len(SubQueries)-FirstCacheSubQuery), Sync: "settle"})
+		default:
+			c.Ops = append(c.Ops, Op{Op: "unsubscribe", ID: sid, Sync: "settle"}, Op{Op: "subscribe", ID: sid, Q: q, Sync: "settle"})
+		}
+	}
+	if r.Chance(30) {
+		c.Spawn = true
 	}
 	return c
 }
